@@ -19,6 +19,8 @@ func init() {
 			"the named-type dispatch covers the three input kinds and the five built-in scalars and the error renderer covers the same sets; list traversal descends into every element unconditionally; the validator's error slot is re-initialised on every Validate call before the walk; the engine plans only after variable validation succeeded (or there was no JSON object to validate). " +
 			"It does not decide accept ⇔ coercible for all (type, value) pairs.",
 		Mutants: []Mutant{
+			{Name: "the JSON parser's error is returned whatever the exposure option says (reverts the F75 fix)", File: "v2/pkg/variablesvalidation/variablesvalidation.go", Rule: "C06-R10", Key: "VariablesValidator.validate/parser-error-only-when-exposure-allowed",
+				Old: "\t\tif v.visitor.opts.DisableExposingVariablesContent {\n\t\t\t// the message of the parser quotes", New: "\t\tif v.visitor.opts.DisableExposingVariablesContent && len(variables) < 0 {\n\t\t\t// the message of the parser quotes"},
 			{Name: "Validate keeps the remap table of the previous request (the repaired defect F18)", File: varsValGo, Rule: "C06-R4", Key: "VariablesValidator.Validate/assigns-every-visitor-input",
 				Old: "\tv.visitor.variablesMap = nil\n", New: ""},
 			{Name: "provided values of input fields with a default are never checked (seeded change C06-11)", File: varsValGo, Rule: "C06-R6", Key: "traverseFieldDefinitionType/exit-checked-or-nothing-to-check",
@@ -56,6 +58,7 @@ func init() {
 }
 
 func runC06(r *fw.Run) {
+	defer c06ParserErrorNotEchoedWhenDisabled(r)
 	p := r.Prog
 	pk := p.Pkg("varsvalidation")
 	if pk == nil {
@@ -715,4 +718,82 @@ func c06DefaultOnlyWhenAbsent(r *fw.Run) {
 		in.Run(nil)
 	}
 	r.Expect("C06-R9", "writes of Input.Variables that inject a variable default", n, 1)
+}
+
+// c06ParserErrorNotEchoedWhenDisabled (R10): the message of the JSON parser quotes the part of the input it could not
+// parse ("unparsed tail: …", up to a kilobyte of whatever follows the error position) — arbitrary variable content. Where
+// the variables are parsed (astjson.Parse… of the variables parameter) the parser's error is returned, or stored as the
+// validator's error, only on the edge where DisableExposingVariablesContent is false.
+func c06ParserErrorNotEchoedWhenDisabled(r *fw.Run) {
+	p := r.Prog
+	r.Rule("C06-R10", "the error of parsing the variables JSON (whose message quotes the unparsed input) leaves the variables validator only where DisableExposingVariablesContent is known to be false")
+	n := 0
+	for _, fi := range p.Funcs("varsvalidation") {
+		info := fi.Info()
+		// targets assigned from an astjson parse call: the error is the last result
+		var errKeys []string
+		fw.WalkAll(fi.Decl.Body, func(nd ast.Node) bool {
+			as, ok := nd.(*ast.AssignStmt)
+			if !ok || len(as.Rhs) != 1 || len(as.Lhs) != 2 {
+				return true
+			}
+			c, isCall := ast.Unparen(as.Rhs[0]).(*ast.CallExpr)
+			if !isCall {
+				return true
+			}
+			fn := fw.Callee(info, c)
+			if fn == nil || !strings.HasPrefix(fn.Name(), "Parse") || fn.Pkg() == nil || !strings.HasSuffix(fn.Pkg().Path(), "/astjson") {
+				return true
+			}
+			errKeys = append(errKeys, fw.ExprKey(info, as.Lhs[1]))
+			return true
+		})
+		if len(errKeys) == 0 {
+			continue
+		}
+		isErr := func(e ast.Expr) bool {
+			k := fw.ExprKey(info, e)
+			for _, ek := range errKeys {
+				if k == ek {
+					return true
+				}
+			}
+			return false
+		}
+		ord := 0
+		in := fw.NewInterp(fi)
+		in.H = fw.Hooks{
+			Lit: func(l *ast.FuncLit, ctx fw.LitCtx, st *fw.State) fw.LitMode { return fw.LitSkip },
+			Cond: func(e ast.Expr, branch bool, st *fw.State) {
+				op, leaves := fw.NNF(info, e, branch)
+				if op != "atom" && op != "and" {
+					return
+				}
+				for _, a := range leaves {
+					if fv, _ := fw.Field(info, a.X); fv != nil && fv.Name() == "DisableExposingVariablesContent" {
+						if a.Kind == "False" {
+							st.Set("exposure-allowed")
+						}
+					}
+					if a.Kind == "NonNil" && isErr(a.X) {
+						st.Set("parse-failed")
+					}
+				}
+			},
+			Exit: func(ret *ast.ReturnStmt, lit *ast.FuncLit, st *fw.State) {
+				if lit != nil || ret == nil || !in.Final() || len(ret.Results) != 1 || !st.Must("parse-failed") {
+					return
+				}
+				if !isErr(ret.Results[0]) {
+					return
+				}
+				n++
+				ord++
+				r.Check(st.Must("exposure-allowed"), "C06-R10", fi.Name()+"/parser-error-only-when-exposure-allowed#"+itoa(ord), p.Pos(ret.Pos()), fi.Name()+" returns the JSON parser's error only where exposing variable content is allowed",
+					fi.Name()+" returns the error of the JSON parser although DisableExposingVariablesContent may be set: its message quotes the unparsed tail of the variables — `{\"v\": {\"b\": 1} \"password\": \"s3cr3t-4711\"}` is answered with `… unparsed tail: \"\\\"password\\\": \\\"s3cr3t-4711\\\"}\"`")
+			},
+		}
+		in.Run(nil)
+	}
+	r.Expect("C06-R10", "returns of the variables JSON parser's error", n, 1)
 }
